@@ -54,6 +54,13 @@ CLAIMS = {
          "an exhaustive tie-break comparison, by replaying every maximal schedule on two real ActivePeers sets with real connections, and by simultaneous dials of whole networks "
          "over the fabric under seeded delay/jitter.",
          "close propagation and handshake completion are quinn's (model steps Notice/Fail/Ready)."),
+ "C13": ("Coq theorems about handle_connectivity_check and DialBackoffState for every known-peer table, configuration and result history: only eligible peers are dialed "
+         "(High, not self, has address, not connected, not already pending, backoff expired), one pending dial per peer, the outstanding-connection cap, every eligible peer "
+         "is dialed when the cap does not bind, deadline = noticed + min(max, k*step) with the u32/Duration clamps, no attempt up to the deadline, address rotation, success "
+         "clears the state; tick arithmetic: first check < one period after eligibility, reconnection <= R + min(max,k*step) + 2P; tied by DialBackoffState runs through the "
+         "hook and by whole networks over the fabric (tick jitter overridden to 0, peers going down / coming back) whose per-tick dial trace is compared with Dialer.check "
+         "driven by the same availability timeline.",
+         "timer accuracy, dial failure by connect_timeout and close notification are the runtime's/quinn's."),
 }
 
 def main():
